@@ -61,6 +61,11 @@ def gen_cases(rng, tier):
         if t not in seen:
             seen.add(t)
             cases.append({"text": t})
+    # exactness probes: integer arithmetic beyond 2**53, each read after strings with integer-valued float literals were
+    # parsed in the same process (what was parsed before must not change the reading)
+    for pre, t in [(["10.0*x", "2.0*y"], "(10**16 + 1) % 10 + x"), (["2.0*x"], "2**64 + 1 - 2**64 + y"), (["3.0*y", "40.0"], "(3**40 + 1) % 3 * x"),
+                   (["7.0 + x"], "(7**25 + 3) % 7 + z1"), ([], "(10**16 + 1) % 10 + y"), (["16.0"], "x * ((2**60 + 1) % 16)")]:
+        cases.append({"text": t, "prelude": pre})
     return cases
 
 
